@@ -22,7 +22,7 @@ TIERS = {
     'thorough': {'runs': 400000, 'deadline_s': 1200, 'chunk': 50},
 }
 RULE = ('one run = one sampled scenario (query shape x front-end x dialect x knobs) whose fault points are enumerated: pipe family: sink breaks at every '
-        'write-call index (text sink) or after every accepted-byte budget 0..|full output| (byte sink, strided when the output is long); refuse family: user '
+        'write-call index (text sink) or after every accepted-byte budget 0..|full output| (byte sink, strided when the output is long), plus, for stdout front-ends, one run on a real OS pipe whose reader is already gone followed by the flush the interpreter performs at exit; refuse family: user '
         'writer answers False at every write index; badbyte family: one invalid byte at every position x one seeded read schedule; errors family: every '
         'error-raising scenario of a fixed catalogue. An evaluation is one (scenario, fault point) execution of the real code. Non-trivial = the fault '
         'actually fired (sink raised / writer refused / decoder met the byte / error raised); distinct = distinct (scenario key, fault point).')
@@ -32,7 +32,8 @@ COMPONENTS = {
              'CPython TextIOWrapper / BufferedWriter / BufferedReader', 'real files in a private directory for inputs, join tables and sqlite'],
     'stub': ['raw byte sink and source under the buffered layers', 'text sink', 'sys.stdin/stdout/stderr/argv, HOME', 'user-supplied output writer (recording, refusing)',
              'in-memory join registry for the stream front-end'],
-    'not_covered': ['a real OS pipe and interpreter-exit flushing', 'interactive preview mode', 'rbql_ipython'],
+    'real_os_objects': ['one deterministic real pipe (read end closed before the run) opened as CPython opens sys.stdout, for the exit-status clause'],
+    'not_covered': ['a real pipe whose reader goes away in the middle of the output (needs a second process)', 'garbage-collection order at interpreter shutdown', 'interactive preview mode', 'rbql_ipython'],
 }
 ASSUMPTIONS = [
     '"stops promptly" is made precise as: after the first failed write at most one further input pull and at most one further write attempt',
